@@ -157,8 +157,18 @@ def cond_sets(test, selfname):
 # ---------------------------------------------------------------------------
 # guards
 
+class _Expand(ast.NodeTransformer):
+    def __init__(self, env):
+        self.env = env
+
+    def visit_Name(self, node):
+        if isinstance(node.ctx, ast.Load) and node.id in self.env:
+            return copy.deepcopy(self.env[node.id])
+        return node
+
+
 class Guard:
-    def __init__(self, fi, node, context, kind, message):
+    def __init__(self, fi, node, context, kind, message, block_env=None):
         self.fi = fi
         self.node = node
         self.context = context      # 'top' | 'loop' | 'cond'
@@ -166,6 +176,15 @@ class Guard:
         self.message = message
         selfname = fi.node.args.args[0].arg if fi.node.args.args else 'self'
         self.sets = cond_sets(node.test, selfname)
+        # the same test with the locals assigned just before it (in the same block) expanded,
+        # e.g. `F1 != F2` -> `gamma1 / beta1 != gamma2 / beta2`
+        self.sets_expanded = None
+        if block_env:
+            try:
+                t2 = _Expand(block_env).visit(copy.deepcopy(node.test))
+                self.sets_expanded = cond_sets(t2, selfname)
+            except Exception:
+                self.sets_expanded = None
 
 
 def fold_str(e, env):
@@ -211,11 +230,20 @@ def guards_of(fi):
         return None, None
 
     def visit(stmts, ctx):
+        env = {}
         for st in stmts:
+            if isinstance(st, ast.Assign) and len(st.targets) == 1 and isinstance(st.targets[0], ast.Name):
+                # simple local definitions of this block (single expression, no calls with side effects)
+                if not any(isinstance(n, ast.Call) for n in ast.walk(st.value)) or \
+                        all(isinstance(n.func, ast.Name) and n.func.id in ('float', 'abs', 'len') for n in ast.walk(st.value)
+                            if isinstance(n, ast.Call)):
+                    env[st.targets[0].id] = _Expand(env).visit(copy.deepcopy(st.value))
+                else:
+                    env.pop(st.targets[0].id, None)
             if isinstance(st, ast.If):
                 kind, msg = body_kind(st.body, {})
                 if kind is not None:
-                    out.append(Guard(fi, st, ctx, kind, msg))
+                    out.append(Guard(fi, st, ctx, kind, msg, dict(env)))
                     visit(st.orelse, ctx if not st.orelse else 'cond')
                 else:
                     visit(st.body, 'cond' if ctx == 'top' else ctx)
@@ -362,11 +390,14 @@ def run(model, tier):
             weak = []
             used = []
             for g in gs:
-                if g.sets is None:
-                    continue
-                for d in g.sets:
+                cand = []
+                for ss in (g.sets, g.sets_expanded):
+                    if ss is not None:
+                        cand.extend(ss)
+                for d in cand:
                     if list(d.keys()) == [row['term']]:
-                        ok_ctx = g.context == 'top' or (g.context == 'loop' and row.get('in_loop'))
+                        ok_ctx = g.context == 'top' or (g.context == 'loop' and row.get('in_loop')) \
+                            or (g.context == 'cond' and row.get('in_branch'))
                         if g.kind == 'ValueError' and ok_ctx:
                             rejected = rejected.union(d[row['term']])
                             used.append(g)
